@@ -15,7 +15,7 @@ import (
 
 type FaultOp struct {
 	AfterUs int    `json:"after_us"`
-	Kind    string `json:"kind"` // rst | fin | blackhole | stall | crash | restart | refuse | timeout | cuths
+	Kind    string `json:"kind"` // rst | fin | blackhole | stall | crash | restart | refuse | timeout | cuths | uclose
 	Dir     int    `json:"dir,omitempty"`
 	N       int    `json:"n,omitempty"`
 	DurUs   int    `json:"dur_us,omitempty"`
@@ -96,7 +96,7 @@ func (faultseqScn) Generate(g *simrt.Rng, tier string) any {
 			op.Kind = "restart"
 			down = false
 		default:
-			op.Kind = simrt.Pick(g, "rst", "fin", "blackhole", "stall", "crash", "refuse", "timeout", "rst", "blackhole", "cuths")
+			op.Kind = simrt.Pick(g, "rst", "fin", "blackhole", "stall", "crash", "refuse", "timeout", "rst", "blackhole", "cuths", "uclose")
 			if op.Kind == "crash" {
 				down = true
 			}
@@ -133,6 +133,16 @@ func (faultseqScn) Run(t *testing.T, seed uint64, plan any, o RunOpts) *Report {
 			case "rst":
 				if pr != nil {
 					pr.Reset("faultseq")
+				}
+			case "uclose":
+				// the user of one end closes a live connection with Conn.Close while traffic is in flight
+				for _, c := range rr.userConns[op.Dir] {
+					if !c.Closed().IsSet() {
+						st := c.Close()
+						simrt.Logf("fault op: user closes a connection (%s end) -> %s", []string{"client", "server"}[op.Dir], stName(st))
+						net.Stats.FaultsFired["user-close"]++
+						break
+					}
 				}
 			case "cuths":
 				// the connection dies and the next N connections are cut inside their handshake
